@@ -1,6 +1,7 @@
 (* C07: k-mer counting is exact and independent of threads, chunking and partitioning. *)
 From Coq Require Import NArith ZArith List.
 From KT Require Import Gen.Generated Gen.Alphabet Gen.GeneratedFacts Model.Kmer Model.Ops Model.Rows Model.Pipeline Proof.CountSched Proof.Merge Proof.CountProof.
+From KT Require Import Model.Show Model.Fs Model.CtrFs Proof.CtrFsProof.
 Import ListNotations.
 Open Scope N_scope.
 
@@ -44,6 +45,26 @@ Proof.
   revert Hb. apply Forall_impl. intros s. apply Forall_impl. intros b Hb. exact (table_ok_spec table_kmer table_kmer_ok b Hb).
 Qed.
 
+(* the same at the level of the files (Model/CtrFs.v: temp file per partition and chunk pass, written as text, read
+   back, summed, removed): whatever the output directory held before, the run does not fail, and the table parsed
+   back from kmers.counts, sorted, is the specification's table *)
+Theorem C07_counts_file_exact_whatever_the_directory_held :
+  forall k n_parts dir chunks f, (1 <= k <= 31)%nat -> 1 <= n_parts ->
+  Forall (Forall (fun b => 4 <= b < 256)) (concat chunks) ->
+  exists f' content, ctr_fs n_parts dir (map (all_canon k) chunks) f = Some f' /\
+    fs_read (counts_name dir) f' = Some content /\
+    join comma (map (show_count false k) (sort_pairs (parse_file content))) = s_ctr k false (concat chunks).
+Proof.
+  intros k n_parts dir chunks f Hk Hn Hb.
+  destruct (ctr_fs_correct n_parts dir (map (all_canon k) chunks) f) as (f' & Hrun & Hc & _).
+  exists f', (file_text (merged n_parts (map (all_canon k) chunks))). split; [exact Hrun|split; [exact Hc|]].
+  rewrite parse_file_text. exact (C07_counts_table_exact k false n_parts chunks Hk Hn Hb).
+Qed.
+
+(* a temp file's text parses back to the table it was written from *)
+Theorem C07_temp_file_round_trip : forall l, parse_file (file_text l) = l.
+Proof. exact parse_file_text. Qed.
+
 Example C07_example :
   m_ctr 2 false 3 [[[65;67;71;84]]; [[65;67]; [71;84;78;65;67]]] = s_ctr 2 false [[65;67;71;84]; [65;67]; [71;84;78;65;67]].
 Proof. vm_compute. reflexivity. Qed.
@@ -53,3 +74,5 @@ Print Assumptions C07_merge_lines_carry_totals.
 Print Assumptions C07_one_line_per_kmer.
 Print Assumptions C07_every_kmer_has_its_line.
 Print Assumptions C07_counts_table_exact.
+Print Assumptions C07_counts_file_exact_whatever_the_directory_held.
+Print Assumptions C07_temp_file_round_trip.
